@@ -34,8 +34,21 @@ C15_OK(ev, i) == LET a == Base(ev, i) ca == DrawCells(a) cb == DrawCells(ev) IN
   /\ SameBag(a.doc.elems, ev.doc.elems \o QuotedElems(ca))
   /\ a.doc.w = ev.doc.w /\ a.doc.h = ev.doc.h           \* ... the page included: quoted text takes no room of its own
 C17_OK(ev, i) == LET a == Base(ev, i) IN EolVariant(a.rows, ev.rows) /\ SameDoc(a.doc, ev.doc)
+C16app_OK(ev, i) == LET a == Base(ev, i) IN LegendAppended(a.rows, ev.rows) /\ SameDrawing(a.doc, ev.doc)
 
-Holds(ev, i, p) ==
+(* Decorated oracle events.  An oracle predicate (C03, C04, C05box, C09run, C13, C14*, C16tags) speaks about a drawing *)
+(* given as rows.  An event may present that drawing in another dress: with CRLF line ends, trailing blanks / blank  *)
+(* lines (C17 says these are invisible) or with a legend below it (C16 says it is never drawn).  Such an event       *)
+(* carries the drawing's own rows as `orows` and the dress in `dec`; the dress is CHECKED here, not believed, and    *)
+(* the oracle is then evaluated on the drawing's rows against the document the real code gave for the dressed text.  *)
+Dressed(ev) == "dec" \in DOMAIN ev
+DressOK(ev) ==
+  CASE ev.dec = "eol" -> EolVariant(ev.orows, ev.rows)
+    [] ev.dec = "legend" -> LegendAppended(ev.orows, ev.rows)
+    [] OTHER -> FALSE
+Undress(ev) == [ev EXCEPT !.rows = ev.orows]
+
+Holds0(ev, i, p) ==
   CASE p = "C03" -> C03_OK(ev)
     [] p = "C01" -> ev.out = "return" /\ ev.doc.wf = 1 /\ ev.work[5] = 0     \* only Return; no pass ever grew a list
     [] p = "C19" -> CliOK([opts |-> RangeOf(ev.sc.opts), inmode |-> ev.sc.inmode, fault |-> RangeOf(ev.sc.fault)], ev.ob)
@@ -57,16 +70,21 @@ Holds(ev, i, p) ==
     [] p = "C10" -> C10_OK(ev, i)
     [] p = "C11" -> C11_OK(ev, i)
     [] p = "C17" -> C17_OK(ev, i)
+    [] p = "C16app" -> C16app_OK(ev, i)
     [] p = "C15" -> C15_OK(ev, i)
     [] p = "C18" -> SettingsVariant(Base(ev, i), ev)
     [] p = "C16legend" -> C16legend_OK(ev)
     [] p = "C16tags" -> C16tags_OK(ev)
     [] p = "C02" -> C02_OK(ev)
+    [] p = "C02wf" -> WellFormedDoc(ev.doc)          \* the first sentence of C02 alone, for inputs that carry no probe strings
+    [] p = "C08voc" -> VocabularyOnly(ev.doc)        \* C08 without a marker to look for
     [] p = "C08v" -> C08v_OK(ev)
     [] p = "C08" -> C08_OK(ev)
     [] OTHER -> FALSE      \* an unknown predicate name is reported, never silently accepted
+Holds(ev, i, p) == IF Dressed(ev) THEN DressOK(ev) /\ Holds0(Undress(ev), i, p) ELSE Holds0(ev, i, p)
 
-NonTrivial(ev, i, p) ==
+NonTrivial(ev0, i, p) ==
+  LET ev == IF Dressed(ev0) THEN Undress(ev0) ELSE ev0 IN
   CASE p = "C03" -> C03_NT(ev)
     [] p = "C01" -> ev.nchars > 0
     [] p \in {"C19", "C19build", "C20"} -> TRUE
@@ -75,6 +93,7 @@ NonTrivial(ev, i, p) ==
     [] p = "C09run" -> TRUE
     [] p = "C15" -> HasQuoted(DrawCells(Base(ev, i)))
     [] p = "C02" -> C02_NT(ev)
+    [] p \in {"C02wf", "C08voc"} -> Len(ev.doc.elems) > 0
     [] p = "C08v" -> C02_NT(ev)
     [] p = "C08" -> C08_NT(ev)
     [] p = "C04" -> C04_NT(ev)
@@ -84,7 +103,7 @@ NonTrivial(ev, i, p) ==
     [] p = "C16tags" -> Len(ev.tags) > 0
     [] p = "C05s" -> C05s_NT(ev)
     [] p = "C05box" -> TRUE
-    [] p \in {"C06", "C10", "C11", "C17"} -> Len(ev.doc.elems) > 0
+    [] p \in {"C06", "C10", "C11", "C17", "C16app"} -> Len(ev.doc.elems) > 0
     [] OTHER -> FALSE
 
 Init == l = 1 /\ bad = {} /\ nt = 0
